@@ -55,7 +55,9 @@ class PathSummary:
     exit_kind: str  # "return" | "raise"
 
     def sig(self) -> tuple:
-        return (tuple(e for e in self.events if e[0] != "call"), self.exit_kind)
+        # calls are part of the signature as a *set* (which effects happen on the path), so that two paths that differ only in whether a
+        # call such as the wait-queue wake-up is made are both kept; their order and multiplicity is not
+        return (tuple(e for e in self.events if e[0] != "call"), frozenset(e[1] for e in self.events if e[0] == "call"), self.exit_kind)
 
     def consistent(self) -> bool:
         """False when the path takes contradictory outcomes of a test on one tracked atom with no assignment in between."""
